@@ -1368,10 +1368,34 @@ class C12(PropOracle):
         self.must_have = set()  # jobs that ended and whose node has since gone on to its next launch / poll / exit
 
     def digest(self):
-        return repr((sorted((k, sorted(v)) for k, v in self.unrecorded.items() if v), sorted(self.must_have)))
+        return repr((sorted((k, sorted(v)) for k, v in self.unrecorded.items() if v), sorted(self.must_have), sorted(getattr(self, "round0", {}).items())))
 
     def on_job_exit(self, w, vp, d):
         self.unrecorded.setdefault(vp.name, set()).add(d["job"])
+
+    # "the submission still reaches completion after the documented try-submit-jobs": ONE idle recovery round (nothing
+    # queued or running, nobody else at work) hands over a batch or completes - also after lost nodes and refused batches
+    def on_actor_round(self, w, vp, d):
+        if vp.name.startswith("rec"):
+            self.round0 = getattr(self, "round0", {})
+            self.round0[vp.name] = (len(w.obs.sbatch_log), w.obs.completions)
+
+    def on_actor_round_end(self, w, vp, d):
+        r0 = getattr(self, "round0", {}).pop(vp.name, None)
+        if r0 is None or not vp.name.startswith("rec"):
+            return
+        o = w.obs
+        if any(str(f[2]) not in ("kill", "fail", "fail-all") for f in (w.data.get("faults") or [])):
+            return
+        attempted = o.sbatch_log[r0[0]:]
+        c = read_json(w.rootp + "cluster_config.json") or {}
+        if not attempted and o.completions == r0[1] and not c.get("is_complete"):
+            busy = any(v.status == "ready" and v is not vp and v.pending is not None and v.pending.kind != "start" for v in w.vprocs)
+            left = [h for v in w.vprocs if v.status == "dead" for h in v.holding]
+            if (c.get("submitter") is not None and busy) or left or w.obs.lock_timeouts:
+                return  # refused by a live submitter / a lock left behind by a killed process (D10, known finding)
+            self.v(w, f"recovery round {d.get('n')} of {vp.name} (exit {d.get('code')}) on an idle, incomplete submission neither handed over a batch nor completed it "
+                      f"(faults so far: {w.data.get('faults')})", "recovery-round-no-progress")
 
     def on_transition(self, w, vp, d):
         s_ = self.unrecorded.get(vp.name)
